@@ -248,10 +248,7 @@ def run(ctx):
     names = {}
 
     def norm(n):
-        if n not in names:
-            r = sess.ask(['name', S(n)])
-            names[n] = None if r[5] == 'err' else unS(r[5][1])
-        return names[n]
+        return markers.pep_norm(n)        # an independent reading, not the crate's own normalisation
     ctx.extra['rule'] = ('syntax trees (depth 0-3) over all key kinds, 7 version operators + wildcards + in/not in lists, 6 string operators, substring in both operand '
                          'orders, extra ==/!= with valid/invalid names; each rendered in 3 layouts (quote style, operand order with inverted operator, white space incl. tabs, '
                          'redundant parentheses, deprecated spellings): all layouts must parse to the same marker; evaluate / evaluate_reporter / evaluate_collect_warnings / '
